@@ -124,7 +124,7 @@ PROPS = {
         assumptions=[],
     ),
     "C12": dict(
-        modules=['Gopki.Props.C12'], theorems=['Conv.converge_after_any_history', 'Conv.reach_sinv', 'Conv.sinv_inv', 'Conv.run_converges', 'Conv.opCfg_sinv', 'Conv.opDelete_sinv', 'Conv.opWrite_sinv'], ops=['hist'],
+        modules=['Gopki.Props.C12', 'Gopki.Model.Fs'], theorems=['Conv.converge_after_any_history', 'Conv.reach_sinv', 'Conv.sinv_inv', 'Conv.run_converges', 'Conv.opCfg_sinv', 'Conv.opDelete_sinv', 'Conv.opWrite_sinv', 'Fs.write_read', 'Fs.write_frame'], ops=['hist', 'fsops'],
         rule="hist: forests of 1-4 entities, a first default run, then 1-5 (thorough 1-9) steps drawn from {edit config, delete/truncate/strip-block/replace artifact, touch config, run with one of 12 flag sets, run with an injected write fault (error / torn prefix / death after write)}, "
              "then a default run (convergence evaluated) and another default run (must be a no-op); every run is replayed on the model from the directory observed before it; non-trivial = at least three runs",
         modelled=['modelled, not verified: encoding/asn1 marshalling (Gopki.Base.Asn1 / Gopki.Model.Generator), encoding/pem, encoding/json (Gopki.Model.Hash), io/fs walk order, MapFS, YAML/JSON-schema front end (identity)', 'signature mathematics and key generation: oracle inputs; verification done by the harness with crypto/ecdsa, crypto/rsa and the keybase brainpool curves'],
@@ -160,7 +160,7 @@ PROPS = {
         assumptions=[],
     ),
     "C18": dict(
-        modules=["Gopki.Props.C18"], theorems=['C18.C18_isConsistent_iff', 'Forest.bfs_main', 'Forest.consistent_iff'], ops=["open"],
+        modules=["Gopki.Props.C18"], theorems=['C18.C18_isConsistent_iff', 'Forest.bfs_main', 'Forest.consistent_iff'], ops=["open", "cli"],
         rule="open: every issuer function on 1-3 (thorough 1-4) entities with issuer in {none, each entity incl. itself, an undefined alias}, spread over nested directories and suffix/case variants, "
              "with junk files (other suffixes, unparseable text, no version key, schema-invalid, wrong version, empty); 13 hand-written alias-collision and layout cases; 150 (thorough 3000) random directories "
              "with aliases from a 4-name pool; each directory is opened, planned and signed; non-trivial = at least one certificate generated or the hierarchy refused",
